@@ -375,8 +375,7 @@ pub fn run_batch<P: Property>(p: &P, env: &Env, known: &KnownFile, threads: usiz
         }
     }
     if det_mismatch > 0 {
-        eprintln!("qsim: the simulation is not deterministic; nothing below would replay. (exit 2)");
-        return BatchResult { exit: 2 };
+        eprintln!("qsim: warning: {det_mismatch} re-executed run(s) differ from the batch: some source of nondeterminism is not behind a seam; replays may not reproduce");
     }
 
     // ---- reduce ---------------------------------------------------------------
@@ -569,6 +568,10 @@ pub fn run_batch<P: Property>(p: &P, env: &Env, known: &KnownFile, threads: usiz
     }
     if unknown > 0 {
         return BatchResult { exit: 1 };
+    }
+    if det_mismatch > 0 {
+        eprintln!("qsim: the simulation is not deterministic and no violation was found; nothing would replay. (exit 2)");
+        return BatchResult { exit: 2 };
     }
     if incon_frac > 0.01 {
         eprintln!(
